@@ -7,16 +7,24 @@
 // to 8 or 16 bits, masked, or passed through a case mapping, characters that are in no alphabet become alphabet
 // characters. This file re-derives, over the call closure of the C15 API (the one shared.go computes):
 //
-//	runeNarrowings        conversions to an 8/16-bit integer type, and masks / remainders by a small constant, of an
-//	                      int32 expression that mentions a code point taken from a string (value variable of a range
-//	                      over a string or []rune, result of utf8.DecodeRune*/DecodeLastRune*, element of a []rune)
-//	                      — expected []
-//	unicodeCalls          calls of code-point-aware library functions (unicode.*, unicode/utf8.*, and the functions of
-//	                      strings / bytes that decode UTF-8 or apply Unicode case mappings) — expected: exactly
-//	                      NewAddrFromString's strings.ToLower of the 3-byte prefix
+//	runeNarrowings        conversions to an 8/16-bit integer type, and masks / remainders by a small constant, of a
+//	                      CODE-POINT EXPRESSION: the value variable of a range over a string or []rune, a result of
+//	                      utf8.DecodeRune*/DecodeLastRune*, an element of a []rune; a conversion of one to ANY integer
+//	                      type (int(c), uint32(c)), arithmetic on one; a variable assigned one; a PARAMETER of a
+//	                      function of the two packages (or of a function literal called in place) that receives one at
+//	                      some call site in the closure; the result of such a function that returns one (fixpoint
+//	                      over the closure) — expected []
+//	unicodeCalls          EVERY CALL SITE of a code-point-aware library function (unicode.*, unicode/utf8.*, and the
+//	                      functions of strings / bytes that decode UTF-8 or apply Unicode case mappings) with its
+//	                      argument expressions, identifiers normalised (p<i> = i-th parameter of the enclosing
+//	                      function, recv, v = any local) so that renaming does not change the fact but a second call,
+//	                      or the same call on another operand, does — expected: exactly NewAddrFromString's
+//	                      strings.ToLower(p0[:3])
 //	b58DecodeRangesString the digit loop of Decodeb58 ranges over the string (or []rune of it)
 //	b58DecodeLookup       0 = the range's value variable is not used (the byte s[i] is looked up), 1 = it is used
-//	                      through a narrowing, 2 = it is used at full width only
+//	                      through a narrowing, 2 = every use is a comparison, an index or a switch tag/case AT FULL
+//	                      WIDTH, 3 = it is used in some other way (passed on, converted, stored: not classified — the
+//	                      loop model treats 3 like 1)
 //
 // into lean/GocoinV/Gen/C15Str.lean. Model/Base58Str.lean instantiates the loop model with the last two; Props/C15
 // proves the first two lists have their expected values. An unexpected value is NOT a translate error.
@@ -58,9 +66,9 @@ func isRuneSlice(t types.Type) bool {
 	return ok && b.Kind() == types.Int32
 }
 
-func isInt32(t types.Type) bool {
+func isIntType(t types.Type) bool {
 	b, ok := t.Underlying().(*types.Basic)
-	return ok && (b.Kind() == types.Int32 || b.Kind() == types.UntypedRune)
+	return ok && b.Info()&types.IsInteger != 0
 }
 
 func isNarrowInt(t types.Type) bool {
@@ -75,75 +83,157 @@ func isNarrowInt(t types.Type) bool {
 	return false
 }
 
+// strScan: code-point expressions over the whole closure (variables and functions are unique objects, so one set serves
+// all functions; collect is repeated until nothing is added)
 type strScan struct {
-	lp       *loadedPkg
-	runeVars map[types.Object]bool
+	an        *analysis
+	runeVars  map[types.Object]bool
+	runeFuncs map[*types.Func]bool // functions (of the two packages) that return a code-point expression
+	changed   bool
 }
 
-func (sc *strScan) obj(id *ast.Ident) types.Object {
-	if o := sc.lp.info.Defs[id]; o != nil {
+func (sc *strScan) markVar(o types.Object) {
+	if o != nil && !sc.runeVars[o] {
+		sc.runeVars[o], sc.changed = true, true
+	}
+}
+
+func objOfIdent(lp *loadedPkg, id *ast.Ident) types.Object {
+	if o := lp.info.Defs[id]; o != nil {
 		return o
 	}
-	return sc.lp.info.Uses[id]
+	return lp.info.Uses[id]
 }
 
-// collect the variables that hold a code point taken from a string
-func (sc *strScan) collect(body ast.Node) {
-	ast.Inspect(body, func(n ast.Node) bool {
+func isUtf8Decode(lp *loadedPkg, c *ast.CallExpr) bool {
+	se, ok := c.Fun.(*ast.SelectorExpr)
+	if !ok {
+		return false
+	}
+	f, ok := lp.info.Uses[se.Sel].(*types.Func)
+	return ok && f.Pkg() != nil && f.Pkg().Path() == "unicode/utf8" && strings.HasPrefix(f.Name(), "Decode")
+}
+
+// runeExpr: is e a code-point expression (see the file comment)?
+func (sc *strScan) runeExpr(lp *loadedPkg, e ast.Expr) bool {
+	switch x := e.(type) {
+	case *ast.ParenExpr:
+		return sc.runeExpr(lp, x.X)
+	case *ast.Ident:
+		o := lp.info.Uses[x]
+		return o != nil && sc.runeVars[o]
+	case *ast.IndexExpr:
+		tv, ok := lp.info.Types[x.X]
+		return ok && isRuneSlice(tv.Type)
+	case *ast.UnaryExpr:
+		switch x.Op {
+		case token.SUB, token.ADD, token.XOR:
+			return sc.runeExpr(lp, x.X)
+		}
+	case *ast.BinaryExpr:
+		switch x.Op {
+		case token.ADD, token.SUB, token.MUL, token.QUO, token.REM, token.AND, token.OR, token.XOR, token.AND_NOT:
+			return sc.runeExpr(lp, x.X) || sc.runeExpr(lp, x.Y)
+		case token.SHL, token.SHR:
+			return sc.runeExpr(lp, x.X)
+		}
+	case *ast.CallExpr:
+		if tv, ok := lp.info.Types[x.Fun]; ok && tv.IsType() {
+			return len(x.Args) == 1 && isIntType(tv.Type) && sc.runeExpr(lp, x.Args[0])
+		}
+		if isUtf8Decode(lp, x) {
+			return true
+		}
+		w := &walker{an: sc.an, lp: lp}
+		if f, _, _, _ := w.callee(x); f != nil && sc.runeFuncs[f] {
+			return true
+		}
+	}
+	return false
+}
+
+// paramObjs: the parameter variables of a function type, in order (nil for unnamed ones)
+func paramObjs(lp *loadedPkg, ft *ast.FuncType) (out []types.Object) {
+	if ft == nil || ft.Params == nil {
+		return
+	}
+	for _, fl := range ft.Params.List {
+		if len(fl.Names) == 0 {
+			out = append(out, nil)
+		}
+		for _, nm := range fl.Names {
+			out = append(out, lp.info.Defs[nm])
+		}
+	}
+	return
+}
+
+// collect the variables (and functions) that hold a code point taken from a string, inside one function
+func (sc *strScan) collect(lp *loadedPkg, self *types.Func, fd *ast.FuncDecl) {
+	ast.Inspect(fd.Body, func(n ast.Node) bool {
 		switch s := n.(type) {
 		case *ast.RangeStmt:
-			if tv, ok := sc.lp.info.Types[s.X]; ok && (isStringType(tv.Type) || isRuneSlice(tv.Type)) {
+			if tv, ok := lp.info.Types[s.X]; ok && (isStringType(tv.Type) || isRuneSlice(tv.Type)) {
 				if id, ok := s.Value.(*ast.Ident); ok && id.Name != "_" {
-					if o := sc.obj(id); o != nil {
-						sc.runeVars[o] = true
-					}
+					sc.markVar(objOfIdent(lp, id))
 				}
 			}
 		case *ast.AssignStmt:
 			if len(s.Rhs) == 1 && len(s.Lhs) >= 1 {
-				from := false
-				if c, ok := s.Rhs[0].(*ast.CallExpr); ok {
-					if se, ok := c.Fun.(*ast.SelectorExpr); ok {
-						if f, ok := sc.lp.info.Uses[se.Sel].(*types.Func); ok && f.Pkg() != nil && f.Pkg().Path() == "unicode/utf8" &&
-							strings.HasPrefix(f.Name(), "Decode") {
-							from = true
-						}
-					}
-				} else if len(s.Lhs) == 1 && sc.mentionsRune(s.Rhs[0]) {
-					if tv, ok := sc.lp.info.Types[s.Rhs[0]]; ok && isInt32(tv.Type) {
-						from = true
+				if c, ok := s.Rhs[0].(*ast.CallExpr); ok && isUtf8Decode(lp, c) {
+					if id, ok := s.Lhs[0].(*ast.Ident); ok && id.Name != "_" {
+						sc.markVar(objOfIdent(lp, id))
 					}
 				}
-				if from {
-					if id, ok := s.Lhs[0].(*ast.Ident); ok && id.Name != "_" {
-						if o := sc.obj(id); o != nil {
-							sc.runeVars[o] = true
-						}
+			}
+			if len(s.Lhs) == len(s.Rhs) {
+				for i, rh := range s.Rhs {
+					if id, ok := s.Lhs[i].(*ast.Ident); ok && id.Name != "_" && sc.runeExpr(lp, rh) {
+						sc.markVar(objOfIdent(lp, id))
 					}
+				}
+			}
+		case *ast.ValueSpec:
+			if len(s.Names) == len(s.Values) {
+				for i, v := range s.Values {
+					if s.Names[i].Name != "_" && sc.runeExpr(lp, v) {
+						sc.markVar(lp.info.Defs[s.Names[i]])
+					}
+				}
+			}
+		case *ast.ReturnStmt:
+			if len(s.Results) == 1 && sc.runeExpr(lp, s.Results[0]) && !sc.runeFuncs[self] {
+				sc.runeFuncs[self], sc.changed = true, true
+			}
+		case *ast.CallExpr:
+			if tv, ok := lp.info.Types[s.Fun]; ok && tv.IsType() {
+				return true
+			}
+			var params []types.Object
+			fun := s.Fun
+			for {
+				p, ok := fun.(*ast.ParenExpr)
+				if !ok {
+					break
+				}
+				fun = p.X
+			}
+			if fl, ok := fun.(*ast.FuncLit); ok {
+				params = paramObjs(lp, fl.Type)
+			} else {
+				w := &walker{an: sc.an, lp: lp}
+				if f, _, _, _ := w.callee(s); f != nil && sc.an.decl[f] != nil {
+					params = paramObjs(sc.an.owner[f], sc.an.decl[f].Type)
+				}
+			}
+			for i, a := range s.Args {
+				if i < len(params) && params[i] != nil && sc.runeExpr(lp, a) {
+					sc.markVar(params[i])
 				}
 			}
 		}
 		return true
 	})
-}
-
-// does the expression mention a code point taken from a string?
-func (sc *strScan) mentionsRune(e ast.Expr) bool {
-	found := false
-	ast.Inspect(e, func(n ast.Node) bool {
-		switch x := n.(type) {
-		case *ast.Ident:
-			if o := sc.lp.info.Uses[x]; o != nil && sc.runeVars[o] {
-				found = true
-			}
-		case *ast.IndexExpr:
-			if tv, ok := sc.lp.info.Types[x.X]; ok && isRuneSlice(tv.Type) {
-				found = true
-			}
-		}
-		return !found
-	})
-	return found
 }
 
 func smallConst(info *types.Info, e ast.Expr) bool {
@@ -156,7 +246,7 @@ func smallConst(info *types.Info, e ast.Expr) bool {
 }
 
 // narrowings inside body: returns descriptions and the identifiers that stand inside a narrowed expression
-func (sc *strScan) narrowings(body ast.Node) (desc []string, inside map[*ast.Ident]bool) {
+func (sc *strScan) narrowings(lp *loadedPkg, body ast.Node) (desc []string, inside map[*ast.Ident]bool) {
 	inside = map[*ast.Ident]bool{}
 	mark := func(e ast.Expr) {
 		ast.Inspect(e, func(n ast.Node) bool {
@@ -169,8 +259,8 @@ func (sc *strScan) narrowings(body ast.Node) (desc []string, inside map[*ast.Ide
 	ast.Inspect(body, func(n ast.Node) bool {
 		switch x := n.(type) {
 		case *ast.CallExpr:
-			if tv, ok := sc.lp.info.Types[x.Fun]; ok && tv.IsType() && len(x.Args) == 1 && isNarrowInt(tv.Type) {
-				if at, ok := sc.lp.info.Types[x.Args[0]]; ok && isInt32(at.Type) && sc.mentionsRune(x.Args[0]) {
+			if tv, ok := lp.info.Types[x.Fun]; ok && tv.IsType() && len(x.Args) == 1 && isNarrowInt(tv.Type) {
+				if sc.runeExpr(lp, x.Args[0]) {
 					desc = append(desc, types.ExprString(x))
 					mark(x.Args[0])
 				}
@@ -178,11 +268,17 @@ func (sc *strScan) narrowings(body ast.Node) (desc []string, inside map[*ast.Ide
 		case *ast.BinaryExpr:
 			if x.Op == token.AND || x.Op == token.REM {
 				for _, p := range [][2]ast.Expr{{x.X, x.Y}, {x.Y, x.X}} {
-					if at, ok := sc.lp.info.Types[p[0]]; ok && isInt32(at.Type) && sc.mentionsRune(p[0]) && smallConst(sc.lp.info, p[1]) &&
-						!(x.Op == token.REM && p[0] == x.Y) {
+					if sc.runeExpr(lp, p[0]) && smallConst(lp.info, p[1]) && !(x.Op == token.REM && p[0] == x.Y) {
 						desc = append(desc, types.ExprString(x))
 						mark(p[0])
 					}
+				}
+			}
+		case *ast.AssignStmt:
+			if (x.Tok == token.AND_ASSIGN || x.Tok == token.REM_ASSIGN) && len(x.Lhs) == 1 && len(x.Rhs) == 1 {
+				if sc.runeExpr(lp, x.Lhs[0]) && smallConst(lp.info, x.Rhs[0]) {
+					desc = append(desc, types.ExprString(x.Lhs[0])+" "+x.Tok.String()+" "+types.ExprString(x.Rhs[0]))
+					mark(x.Lhs[0])
 				}
 			}
 		}
@@ -191,21 +287,120 @@ func (sc *strScan) narrowings(body ast.Node) (desc []string, inside map[*ast.Ide
 	return
 }
 
+// normExpr prints an expression with identifiers normalised: p<i> = i-th parameter of fd, recv = its receiver,
+// v = any other local variable; package-level objects, fields, constants and literals keep their names
+func normExpr(lp *loadedPkg, fd *ast.FuncDecl, e ast.Expr) string {
+	params := paramObjs(lp, fd.Type)
+	var recv types.Object
+	if fd.Recv != nil && len(fd.Recv.List) == 1 && len(fd.Recv.List[0].Names) == 1 {
+		recv = lp.info.Defs[fd.Recv.List[0].Names[0]]
+	}
+	var pr func(e ast.Expr) string
+	opt := func(e ast.Expr) string {
+		if e == nil {
+			return ""
+		}
+		return pr(e)
+	}
+	pr = func(e ast.Expr) string {
+		switch x := e.(type) {
+		case *ast.Ident:
+			o := lp.info.Uses[x]
+			if v, ok := o.(*types.Var); ok && !v.IsField() && !isPkgLevelVar(v) {
+				for i, p := range params {
+					if p == o {
+						return fmt.Sprintf("p%d", i)
+					}
+				}
+				if o == recv {
+					return "recv"
+				}
+				return "v"
+			}
+			return x.Name
+		case *ast.ParenExpr:
+			return "(" + pr(x.X) + ")"
+		case *ast.SelectorExpr:
+			return pr(x.X) + "." + x.Sel.Name
+		case *ast.IndexExpr:
+			return pr(x.X) + "[" + pr(x.Index) + "]"
+		case *ast.SliceExpr:
+			s := pr(x.X) + "[" + opt(x.Low) + ":" + opt(x.High)
+			if x.Slice3 {
+				s += ":" + opt(x.Max)
+			}
+			return s + "]"
+		case *ast.StarExpr:
+			return "*" + pr(x.X)
+		case *ast.UnaryExpr:
+			return x.Op.String() + pr(x.X)
+		case *ast.BinaryExpr:
+			return pr(x.X) + " " + x.Op.String() + " " + pr(x.Y)
+		case *ast.CallExpr:
+			var as []string
+			for _, a := range x.Args {
+				as = append(as, pr(a))
+			}
+			return pr(x.Fun) + "(" + strings.Join(as, ", ") + ")"
+		}
+		return types.ExprString(e)
+	}
+	return pr(e)
+}
+
+// fullWidthUse: is this use of the range value variable a comparison operand, an index, or a switch tag / case value?
+func fullWidthUse(stack []ast.Node, id *ast.Ident) bool {
+	var child ast.Node = id
+	for i := len(stack) - 1; i >= 0; i-- {
+		switch p := stack[i].(type) {
+		case *ast.ParenExpr:
+			child = p
+			continue
+		case *ast.BinaryExpr:
+			switch p.Op {
+			case token.EQL, token.NEQ, token.LSS, token.LEQ, token.GTR, token.GEQ:
+				return true
+			}
+			return false
+		case *ast.IndexExpr:
+			return p.Index == child
+		case *ast.SwitchStmt:
+			return p.Tag == child
+		case *ast.CaseClause:
+			return true
+		default:
+			return false
+		}
+	}
+	return false
+}
+
 func genStrLoop() (int, error) {
 	an := sharedAn
 	if an == nil {
 		return 0, fmt.Errorf("strloop: genShared did not run")
 	}
-	narrowSet, callSet := map[string]bool{}, map[string]bool{}
+	sc := &strScan{an: an, runeVars: map[types.Object]bool{}, runeFuncs: map[*types.Func]bool{}}
+	for round := 0; round < 20; round++ {
+		sc.changed = false
+		for _, f := range sharedClosure {
+			if fd := an.decl[f]; fd != nil && fd.Body != nil {
+				sc.collect(an.owner[f], f, fd)
+			}
+		}
+		if !sc.changed {
+			break
+		}
+	}
+	narrowSet := map[string]bool{}
+	var calls []string
 	ranges, lookup, foundDecode := false, 0, false
 	for _, f := range sharedClosure {
 		fd, lp := an.decl[f], an.owner[f]
 		if fd == nil || fd.Body == nil {
 			continue
 		}
-		sc := &strScan{lp: lp, runeVars: map[types.Object]bool{}}
-		sc.collect(fd.Body)
-		desc, inside := sc.narrowings(fd.Body)
+		desc, inside := sc.narrowings(lp, fd.Body)
 		for _, d := range desc {
 			narrowSet[funcName(f)+": "+d] = true
 		}
@@ -222,11 +417,17 @@ func genStrLoop() (int, error) {
 			if !ok || g.Pkg() == nil {
 				return true
 			}
-			switch p := g.Pkg().Path(); {
-			case p == "unicode" || p == "unicode/utf8" || p == "unicode/utf16":
-				callSet[funcName(f)+": "+g.Pkg().Name()+"."+g.Name()] = true
-			case (p == "strings" || p == "bytes") && runeAwareStd[g.Name()]:
-				callSet[funcName(f)+": "+g.Pkg().Name()+"."+g.Name()] = true
+			p := g.Pkg().Path()
+			if p == "unicode" || p == "unicode/utf8" || p == "unicode/utf16" || (p == "strings" || p == "bytes") && runeAwareStd[g.Name()] {
+				var as []string
+				for _, a := range c.Args {
+					as = append(as, normExpr(lp, fd, a))
+				}
+				recv := ""
+				if sel, ok := lp.info.Selections[se]; ok && sel.Kind() == types.MethodVal {
+					recv = normExpr(lp, fd, se.X) + "."
+				}
+				calls = append(calls, funcName(f)+": "+recv+g.Pkg().Name()+"."+g.Name()+"("+strings.Join(as, ", ")+")")
 			}
 			return true
 		})
@@ -234,6 +435,7 @@ func genStrLoop() (int, error) {
 			continue
 		}
 		foundDecode = true
+		var stack []ast.Node
 		ast.Inspect(fd.Body, func(n ast.Node) bool {
 			rs, ok := n.(*ast.RangeStmt)
 			if !ok {
@@ -248,21 +450,33 @@ func genStrLoop() (int, error) {
 			if !ok || id.Name == "_" {
 				return true
 			}
-			vo := sc.obj(id)
-			uses, narrowed := 0, 0
+			vo := objOfIdent(lp, id)
+			uses, narrowed, other := 0, 0, 0
+			stack = stack[:0]
 			ast.Inspect(rs.Body, func(m ast.Node) bool {
+				if m == nil {
+					stack = stack[:len(stack)-1]
+					return true
+				}
 				if u, ok := m.(*ast.Ident); ok && vo != nil && lp.info.Uses[u] == vo {
 					uses++
 					if inside[u] {
 						narrowed++
+					} else if !fullWidthUse(stack, u) {
+						other++
 					}
 				}
+				stack = append(stack, m)
 				return true
 			})
 			switch {
 			case uses == 0:
 			case narrowed > 0:
 				lookup = 1
+			case other > 0:
+				if lookup != 1 {
+					lookup = 3
+				}
 			case lookup == 0:
 				lookup = 2
 			}
@@ -279,16 +493,17 @@ func genStrLoop() (int, error) {
 		sort.Strings(out)
 		return
 	}
+	sort.Strings(calls)
 	var sb strings.Builder
 	sb.WriteString("/- GENERATED by go/cmd/gen_c15 (strloop.go) from lib/btc and lib/others/bech32 — do not edit; not in git. -/\n")
 	sb.WriteString("namespace GocoinV.Gen.C15Str\n\n")
 	sb.WriteString("/-- narrowings (conversion to an 8/16-bit type, mask, remainder) of a code point taken from a string, in the\n    call closure of the C15 API: \"function: expression\" -/\n")
 	fmt.Fprintf(&sb, "def runeNarrowings : List String := %s\n\n", leanStrList(keys(narrowSet)))
-	sb.WriteString("/-- calls of code-point-aware library functions in that closure: \"function: callee\" -/\n")
-	fmt.Fprintf(&sb, "def unicodeCalls : List String := %s\n\n", leanStrList(keys(callSet)))
+	sb.WriteString("/-- every call site of a code-point-aware library function in that closure: \"function: callee(arguments)\",\n    identifiers normalised (p<i> parameter, recv, v local) -/\n")
+	fmt.Fprintf(&sb, "def unicodeCalls : List String := %s\n\n", leanStrList(calls))
 	sb.WriteString("/-- the digit loop of Decodeb58 is a `range` over the string (positions = first bytes of code points) -/\n")
 	fmt.Fprintf(&sb, "def b58DecodeRangesString : Bool := %v\n\n", ranges)
-	sb.WriteString("/-- what that loop looks up: 0 the byte s[i], 1 the code point narrowed, 2 the code point at full width -/\n")
+	sb.WriteString("/-- what that loop looks up: 0 the byte s[i], 1 the code point narrowed, 2 the code point at full width\n    (comparisons / index / switch only), 3 the code point used in a way that is not classified -/\n")
 	fmt.Fprintf(&sb, "def b58DecodeLookup : Nat := %d\n\n", lookup)
 	sb.WriteString("end GocoinV.Gen.C15Str\n")
 	out := vlib.Root() + "/lean/GocoinV/Gen/C15Str.lean"
